@@ -11,6 +11,7 @@ LEAN_MODULES = ["WildModel.Props.C23"]
 THEOREMS = [
     "Wild.Alloc.alloc_eq_consume_resolution",
     "Wild.Alloc.alloc_eq_consume_site",
+    "Wild.Alloc.no_tables_trivial",
     "Wild.Alloc.alloc_table_consistent",
     "Wild.Alloc.alloc_table_matches_model",
     "Wild.Alloc.alloc_table_complete",
@@ -163,7 +164,7 @@ def exhaustive(ctx):
     for l, a in zip(lines, impl):
         if l in valid and "needs-layout" not in a and not a.endswith("V=ok"):
             ctx.cov["impl_oracle_failures"] += 1
-            ctx.violation("row:" + l, f"allocation and consumption differ for a resolution layout can produce: {l} -> {a}",
+            ctx.violation("row:" + a, f"allocation and consumption differ for a resolution layout can produce: {l} -> {a}",
                           {"request": l, "observed": a, "how": "echo '<request>' | /verif/.target/wvh/debug/wvh  (A=alloc C=consumed V=verify_resolution_allocation)"})
     # bits neither side reads
     r = ctx.rng
@@ -303,6 +304,11 @@ extern __thread int t_gd __attribute__((tls_model("initial-exec")));
 int tls_ie_extra(void) { return t_multi + t_gd; }
 """
 
+# Freestanding executables have no libc: a local definition for the (un-relaxed, --no-relax) general-dynamic calls.
+TGA_C = r"""
+void *__tls_get_addr(void *p) { return p; }
+"""
+
 ODD_S = r"""
     .section .data.c23a,"aw",@progbits
     .byte 7
@@ -344,6 +350,8 @@ def build_objects(d):
               lu.cc_obj(sub, "tlsdesc", TLSDESC_C, flags=common + tls_flags + ["-mtls-dialect=gnu2"]),
               lu.cc_obj(sub, "tlsie", TLSIE_C, flags=common + tls_flags),
               lu.asm_obj(sub, "odd", ODD_S)]
+        if "-DSHARED" not in cf:
+            o_.append(lu.cc_obj(sub, "tga", TGA_C, flags=common + cf))
         objs[flavor] = o_
     return objs, lib
 
@@ -427,6 +435,9 @@ def sweep(ctx):
     reqs = []
     for (f, k, relr) in sorted(observed):
         fm = sum(b for b in REL_BITS if f & b)
+        if not fm & (128 | 256 | 512 | 1024 | 2048 | 16384):
+            ctx.count("observed-resolutions", "no-table-entries (theorem no_tables_trivial)")
+            continue
         dyn = 1 if (fm & 2 or fm & 4096) else 0
         raw = "0" if fm & 1 else "0x50"
         reqs.append(f"alloc-row {fm} {k} {1 if relr else 0} {raw} {dyn}")
@@ -438,7 +449,7 @@ def sweep(ctx):
         ctx.count("observed-resolutions", "outside-Valid", len(outside))
         ctx.cov["observed_resolution_rows"] = len(reqs)
         if outside:
-            ctx.broken.append("real links produce resolutions outside the model's Valid domain (the theorem does not cover them): " + "; ".join(outside[:5]))
+            ctx.broken.append("real links produce resolutions outside the model's Valid domain (the theorem does not cover them): " + "; ".join(outside[:12]))
     shutil.rmtree(d, ignore_errors=True)
 
 
